@@ -444,8 +444,16 @@ impl AnnotationStore {
             format!("AnnotationStore.insert_data: dataitem={:?}", dataitem)
         });
         // Obtain the dataset for this data item
-        let dataset: &mut AnnotationDataSet = if let Ok(dataset) = self.get_mut(&dataitem.dataset) {
-            dataset
+        // (data that names no dataset goes to the default set, which is created the first time only)
+        let dataset_exists = if dataitem.dataset.is_none() {
+            self.resolve_dataset_id("default-annotationset").ok()
+        } else {
+            <Self as StoreFor<AnnotationDataSet>>::get(self, &dataitem.dataset)
+                .ok()
+                .and_then(|dataset| dataset.handle())
+        };
+        let dataset: &mut AnnotationDataSet = if let Some(handle) = dataset_exists {
+            self.get_mut(handle)?
         } else {
             // this data referenced a dataset that does not exist yet, create it
             let dataset_id: String = match dataitem.dataset {
